@@ -129,6 +129,17 @@ def run_case(case):
             y = x.copy()
         elif path == 'pickle':
             y = pickle.loads(pickle.dumps(x))
+        elif path == 'sa_get' and unsync and integ not in ('whfast', 'saba'):
+            # only WHFast and SABA offer keep_unsynchronized; for the others getSimulation really synchronises (not bit-for-bit by design)
+            path = 'memory'
+            y = rebound.Simulation(S1)
+        elif path == 'sa_get':
+            # the documented way to resume from an archive: Simulationarchive.getSimulation(t) with its default keep_unsynchronized=1
+            tmpf = os.path.join(os.getcwd(), 'c05_%d.bin' % os.getpid())
+            x.save_to_file(tmpf, delete_file=True)
+            sa_ = rebound.Simulationarchive(tmpf)
+            y = sa_.getSimulation(x.t, mode='snapshot')
+            del sa_
     except Exception as e:
         return dict(violations=[dict(mech='restore:raises:%s' % path, msg='%s: %s' % (type(e).__name__, e))], counters=counters)
     finally:
@@ -144,6 +155,10 @@ def run_case(case):
     S2 = rt.save_bytes(y)
     c2 = rt.sabin(S2)
     dk = rt.diff_keys(c1, c2)
+    KU = ('ri_whfast.keep_unsynchronized', 'ri_saba.keep_unsynchronized')
+    if path == 'sa_get':
+        counters['restored_through_getSimulation'] = 1
+        dk = [q for q in dk if q not in KU + ('particles',)] if unsync else [q for q in dk if q not in KU]
     if dk:
         viol.append(dict(mech='stream:resave-differs:' + ','.join(dk)[:100], msg='save(load(save(x))) differs from save(x) in fields %r (path %s)' % (dk, path)))
     # oracle 2: struct leaves
@@ -152,6 +167,8 @@ def run_case(case):
     bad = []
     for pth, off, size in leaves:
         if pth in TRANSIENT or pth.startswith(TRANSIENT_PREFIX):
+            continue
+        if path == 'sa_get' and pth.endswith('keep_unsynchronized'):
             continue
         counters['leaves_compared'] += 1
         if bx[off:off + size] != by[off:off + size]:
@@ -170,13 +187,18 @@ def run_case(case):
     # restored run must still continue exactly like the uninterrupted original, which was never synchronised.  The particle array
     # then legitimately differs (it is output, not state), so boundaries are compared on the rest of the persisted content.
     poke = unsync and any(k_.endswith('keep_unsynchronized') and v_ for k_, v_ in spec.get('opts', {}).items()) and (case.get('k', 0) % 2 == 1)
+    if path == 'sa_get' and unsync:
+        poke = True           # getSimulation has synchronised the restored copy for output already
     if poke:
-        y.synchronize()
+        if path != 'sa_get':
+            y.synchronize()
         counters['restored_then_synchronized_for_output'] = 1
 
         def shash(s_):
             c_ = rt.sabin_sim(s_)
             c_.pop('particles', None)
+            for q_ in KU:
+                c_.pop(q_, None)
             return rt.digest(c_)
     if not viol or case.get('continue_anyway'):
         try:
@@ -199,6 +221,10 @@ def run_case(case):
                 dk = rt.diff_keys(cx, cy)
                 if treemode:
                     dk = [q for q in dk if q != 'particles']
+                if path == 'sa_get':
+                    # the restored copy keeps keep_unsynchronized=1 (by design): its internal flags differ from the original's after the final
+                    # synchronize; the physical state (synchronised particles, time, counters) must be bitwise the same
+                    dk = [q for q in dk if q in ('particles', 't', 'N', 'steps_done', 'dt', 'N_active')] if unsync else [q for q in dk if q not in KU]
                 if dk:
                     viol.append(dict(mech='continuation:final-persisted-state-differs:' + ','.join(dk)[:100] + (':tree-mode' if treemode else ''), msg='after %d further steps final persisted states differ in %r' % (k, dk)))
             else:
@@ -241,7 +267,7 @@ def plan(tier, seed):
                 sp['n'] = r.choice([1, 5, 20])
             sp['exact'] = 0 if spec['integrator'] == 'whfast512' else r.choice([0, 1])
         spec['savepoint'] = sp
-        cases[variant].append(dict(spec=spec, path=r.choice(['memory', 'file', 'copy', 'pickle']), k=r.choice([1, 3, 10, 40, 120 if tier == 'quick' else 300])))
+        cases[variant].append(dict(spec=spec, path=r.choice(['memory', 'file', 'copy', 'pickle', 'sa_get']), k=r.choice([1, 3, 10, 40, 120 if tier == 'quick' else 300])))
     return cases
 
 
